@@ -38,6 +38,15 @@ Modelling conventions (stated in the generated header as well):
      is exhaustive (``step != 0`` is part of the proved invariant ``Inv``), so the implicit
      ``return None`` is not modelled;
   A3 ``x // 0`` / ``x % 0`` are ``Int.fdiv x 0 = 0`` / ``Int.fmod x 0 = x`` (Python raises; excluded by ``Inv``).
+
+Sequence-level getters (``Sequence.annotation_offset``, ``Sequence.parent_coordinates`` of the module's ``Sequence``
+class) are translated as functions of the VIEW the sequence wraps:
+  A4 ``self._seq`` is the slice record (the generated function takes it as its ``self``); the python text is
+     first put into a normal form that keeps python's left-to-right evaluation order: attribute loads inside a
+     returned tuple are bound to temporaries in order (so a raising ``parent_start`` raises before ``parent_stop``
+     is asked);
+  A5 components of the returned tuple that are opaque strings (``seqid``) are dropped: the generated function is
+     the program slice on the integer components ``(start, stop, strand)``.
 """
 from __future__ import annotations
 
@@ -1037,6 +1046,7 @@ PARAM_KINDS = {  # unannotated module functions
 FIXED_ARGS = {"copy": {"sliced": False}}   # translated at this constant argument only (the way the slicing code calls it)
 
 MODULE_FUNCS = ["_input_vals_pos_step", "_input_vals_neg_step"]
+SEQ_LEVEL = [("annotation_offset", "annotationOffset"), ("parent_coordinates", "parentCoordinates")]   # of class Sequence
 ORDER = [  # (python method name, where: 'c' concrete class / 'a' abstract class, required)
     ("_checked_seq_len", "c", False), ("__init__", "c", True),
     ("__len__", "a", True), ("is_reversed", "a", True), ("parent_start", "a", True), ("parent_stop", "a", True),
@@ -1076,8 +1086,9 @@ def body_of(fdef):
 
 
 class Namespace:
-    def __init__(self, name, mod_tree, abs_cls, conc_cls, label, rich_dict):
+    def __init__(self, name, mod_tree, abs_cls, conc_cls, label, rich_dict, seq_cls=None, seq_label=None):
         self.name, self.label, self.rich_dict = name, label, rich_dict
+        self.seq_cls, self.seq_label = seq_cls, seq_label
         self.problems, self.assumptions = [], set()
         self.funcs = {}
         self.defs = []          # lean text of each definition
@@ -1448,7 +1459,96 @@ class Namespace:
                 raise TranslationError(f"{where}: {type(st).__name__} statement that does not assign the bounds; outside the fragment")
         return kept, (sl.lower.id, sl.upper.id)
 
+    def seq_level_normal_form(self, fdef, where):
+        """A4/A5: `self._seq` -> `self`; attribute loads of a returned tuple are bound to temporaries left to right;
+        opaque (string) components of the returned tuple are dropped"""
+        import copy
+
+        class Sub(ast.NodeTransformer):
+            def visit_Attribute(self, n):
+                self.generic_visit(n)
+                if isinstance(n.value, ast.Name) and n.value.id == "self" and n.attr == "_seq":
+                    return ast.copy_location(ast.Name(id="self", ctx=ast.Load()), n)
+                return n
+
+        g = copy.deepcopy(fdef)
+        for st in body_of(g):
+            for n in ast.walk(st):
+                if _is_self_attr(n) and n.attr != "_seq":
+                    raise TranslationError(f"{where}:{n.lineno}: reads self.{n.attr} of the Sequence (only self._seq.* is in the fragment)")
+                if isinstance(n, ast.Name) and n.id == "self" and isinstance(n.ctx, ast.Store):
+                    raise TranslationError(f"{where}:{n.lineno}: assigns self")
+        used = {n.id for n in ast.walk(g) if isinstance(n, ast.Name)}
+        g = Sub().visit(g)
+        body = body_of(g)
+        doc = g.body[: len(g.body) - len(body)]
+        new_body = []
+        for st in body:
+            if isinstance(st, ast.Return) and isinstance(st.value, ast.Tuple):
+                pre, elts = [], []
+                for k, el in enumerate(st.value.elts):
+                    if _is_self_attr(el):
+                        if el.attr in OPAQUE_ATTRS:
+                            self.check_getter_seq(el, where)
+                            continue          # A5: evaluated for nothing but its value, which is not an integer
+                        tmp = f"t{k}"
+                        while tmp in used:
+                            tmp += "_"
+                        used.add(tmp)
+                        pre.append(ast.copy_location(ast.Assign(targets=[ast.Name(id=tmp, ctx=ast.Store())], value=el), st))
+                        elts.append(ast.copy_location(ast.Name(id=tmp, ctx=ast.Load()), el))
+                    elif isinstance(el, (ast.Name, ast.Constant)) or (
+                            isinstance(el, ast.UnaryOp) and isinstance(el.operand, ast.Constant)):
+                        elts.append(el)
+                    else:
+                        raise TranslationError(f"{where}:{el.lineno}: returned tuple component {ast.unparse(el)} is neither a name, "
+                                               "a constant nor an attribute of the view")
+                new_body += pre
+                new_body.append(ast.copy_location(ast.Return(value=ast.copy_location(ast.Tuple(elts=elts, ctx=ast.Load()), st.value)), st))
+            else:
+                for n in ast.walk(st):
+                    if isinstance(n, ast.Return) and isinstance(n.value, ast.Tuple) and n is not st:
+                        raise TranslationError(f"{where}:{n.lineno}: nested tuple return in a Sequence-level getter")
+                new_body.append(st)
+        g.body = doc + new_body
+        ast.fix_missing_locations(g)
+        return g
+
+    def check_getter_seq(self, node, where):
+        """the dropped component must be a plain getter of the view class (it cannot raise or compute)"""
+        attr = node.attr
+        f = self.methods.get(attr)
+        if f is None:
+            return      # a plain instance attribute
+        b = body_of(f)
+        if not (attr in self.properties and len(b) == 1 and isinstance(b[0], ast.Return) and _is_self_attr(b[0].value, "_" + attr)):
+            raise TranslationError(f"{where}:{node.lineno}: dropped tuple component self._seq.{attr} is not a plain getter")
+
+    def run_seq_level(self):
+        if self.seq_cls is None:
+            return
+        for pyname, lean_short in SEQ_LEVEL:
+            where = f"{self.seq_label}::{pyname}"
+            try:
+                cands = [n for n in self.seq_cls.body if isinstance(n, ast.FunctionDef) and n.name == pyname
+                         and not any(ast.unparse(d).endswith((".setter", ".deleter")) for d in n.decorator_list)]
+                if len(cands) != 1:
+                    raise TranslationError(f"{where}: expected exactly one definition, found {len(cands)}")
+                g = self.seq_level_normal_form(cands[0], where)
+                saved = self.label
+                self.label = f"{self.seq_label} (over {saved})"
+                try:
+                    self.translate_def(g, "S:" + pyname, lean_short, True)
+                finally:
+                    self.label = saved
+            except TranslationError as e:
+                self.problems.append(str(e))
+
     def run(self):
+        self._run_view_level()
+        self.run_seq_level()
+
+    def _run_view_level(self):
         for fname in MODULE_FUNCS:
             f = self.mod_funcs.get(fname)
             try:
@@ -1485,6 +1585,7 @@ HEADER = """/-
     cogent3/core/sequence.py      (_input_vals_pos_step, _input_vals_neg_step, SliceRecordABC, SeqView)   -> GenOld
     cogent3/core/new_sequence.py  (the same names)                                                        -> GenNew
     cogent3/core/new_sequence.py SliceRecordABC + cogent3/core/new_alignment.py SeqDataView               -> GenData
+    + class Sequence of the same module (new_sequence.py for GenData): annotation_offset, parent_coordinates
   Regenerated on every check run; do not edit.  `Proofs/C01GenEq.lean` proves that every definition
   below equals the hand-written model `Model/View.lean` (for all arguments).
 
@@ -1496,6 +1597,9 @@ HEADER = """/-
   A2  `if self.step > 0: .. elif self.step < 0: ..` without `else` at the end of a function is taken as exhaustive
       (`step != 0` is part of the proved invariant `Inv`), the implicit `return None` is not modelled.
   A3  `x // 0`, `x % 0` are `Int.fdiv x 0 = 0`, `Int.fmod x 0 = x` (python raises; excluded by `Inv`).
+  A4  `annotationOffset` / `parentCoordinates` are `Sequence.annotation_offset` / `Sequence.parent_coordinates` of the module's
+      `Sequence` class as functions of the view `self._seq`; attribute loads in the returned tuple are bound left to right.
+  A5  the opaque string component `seqid` of the returned tuple is dropped: `parentCoordinates` is (start, stop, strand).
 -/
 import CogentModel.Model.View
 set_option linter.unusedVariables false
@@ -1511,6 +1615,7 @@ SOURCES = [
     ("GenNew", "core/new_sequence.py", "SliceRecordABC", "core/new_sequence.py", "SeqView", True),
     ("GenData", "core/new_sequence.py", "SliceRecordABC", "core/new_alignment.py", "SeqDataView", False),
 ]
+SEQ_CLASS = "Sequence"   # in the module of the abstract class (sequences of a new-style collection are new_sequence.Sequence)
 
 
 def _find_class(tree, name, path):
@@ -1532,7 +1637,8 @@ def translate(src_root: Path):
                     trees[p] = ast.parse((src_root / p).read_text())
             label = f"{conc_path}:{conc_cls}" if abs_path == conc_path else f"{abs_path}:{abs_cls}+{conc_path}:{conc_cls}"
             ns = Namespace(ns_name, trees[abs_path], _find_class(trees[abs_path], abs_cls, abs_path),
-                           _find_class(trees[conc_path], conc_cls, conc_path), label, rich)
+                           _find_class(trees[conc_path], conc_cls, conc_path), label, rich,
+                           seq_cls=_find_class(trees[abs_path], SEQ_CLASS, abs_path), seq_label=f"{abs_path}:{SEQ_CLASS}")
             ns.run()
         except (TranslationError, SyntaxError, OSError) as e:
             problems.append(f"{ns_name}: {e}")
